@@ -48,9 +48,9 @@ def as_iter(self, v):
       idx = z3.Function(fresh_name('idx'), s.elem.z3(), z3.IntSort())
       inr = lambda x: z3.And(x >= 0, x < q.len(seq))
       self.assume(q.len(seq) >= 0)
-      self.assume(z3.ForAll([i], z3.Implies(inr(i), z3.Select(v.t, q.get(seq, i))), patterns=[q.get(seq, i)]))
-      self.assume(z3.ForAll([e], z3.Implies(z3.Select(v.t, e), z3.And(inr(idx(e)), q.get(seq, idx(e)) == e)), patterns=[z3.Select(v.t, e)]))
-      self.assume(z3.ForAll([i, j], z3.Implies(z3.And(inr(i), inr(j), q.get(seq, i) == q.get(seq, j)), i == j),
+      self.assume(qforall([i], z3.Implies(inr(i), z3.Select(v.t, q.get(seq, i))), patterns=[q.get(seq, i)]))
+      self.assume(qforall([e], z3.Implies(z3.Select(v.t, e), z3.And(inr(idx(e)), q.get(seq, idx(e)) == e)), patterns=[z3.Select(v.t, e)]))
+      self.assume(qforall([i, j], z3.Implies(z3.And(inr(i), inr(j), q.get(seq, i) == q.get(seq, j)), i == j),
                             patterns=[z3.MultiPattern(q.get(seq, i), q.get(seq, j))]))
       return IterView(q.len(seq), lambda k: SV(s.elem, q.get(seq, k)), s.elem)
   raise OutsideSubset(f'iteration over {v!r}')
@@ -140,6 +140,20 @@ def havoc(self, names, env):
       raise OutsideSubset(f'cannot havoc loop-modified variable {nm!r} = {cur!r}')
 
 
+def pre_snapshot(self, names, env):
+  """ghost `_pre_<name>`: value of a loop-modified variable at loop entry"""
+  out = {}
+  for nm in names:
+    try:
+      cur = env.lookup(nm)
+    except KeyError:
+      continue
+    v = self.deref(cur)
+    if isinstance(v, (SV, PyTuple, bool, int, float)):
+      out['_pre_' + nm.lstrip('_')] = v
+  return out
+
+
 def bind_target(self, tg, v, env):
   self.assign(tg, v, env)
 
@@ -174,9 +188,11 @@ def s_For(self, st, env):
   if it.elem_sort is not None:
     at = it.at
     ghost['_at'] = ghost[f'_at{lid}'] = Handler('_at', lambda ex, a, kw, at=at: at(ex.coerce(a[0], INT).t))
+  ghost.update(pre_snapshot(self, mod, env))
   for i, g in enumerate(eval_clauses(self, invs, env, ghost)):
     self.oblige(g, f'inv-init[{lid}.{i}]')
   which = self.choose([('iter', n > 0), ('exit', None)], f'loop{lid}')
+  ghost.update(pre_snapshot(self, mod, env))
   havoc(self, mod - target_names(st.target), env)
   self.havoc_heap(st.body)
   if which == 'iter':
@@ -215,6 +231,7 @@ def s_While(self, st, env):
   dec = self.spec.while_decreases.get(lid)
   mod = assigned_names(st.body)
   ghost = {}
+  ghost.update(pre_snapshot(self, mod, env))
   for i, g in enumerate(eval_clauses(self, invs, env, ghost)):
     self.oblige(g, f'inv-init[{lid}.{i}]')
   havoc(self, mod, env)
@@ -301,7 +318,7 @@ def comprehension(self, n, env, kind):
       el = self.coerce(el, hint.elem)
       r = hint.const('comp')
       self.assume(hint.len(r) == it.length)
-      self.assume(z3.ForAll([k], z3.Implies(inr, hint.get(r, k) == el.t), patterns=[hint.get(r, k)]))
+      self.assume(qforall([k], z3.Implies(inr, hint.get(r, k) == el.t), patterns=[hint.get(r, k)]))
       res = SV(hint, r)
     elif kind == 'set':
       el = self.eval(n.elt, e)
@@ -311,14 +328,14 @@ def comprehension(self, n, env, kind):
       x = z3.Const(fresh_name('x'), hint.elem.z3())
       wit = z3.Function(fresh_name('wit'), hint.elem.z3(), z3.IntSort())
       cond = z3.And(inr, *conds)
-      self.assume(z3.ForAll([k], z3.Implies(cond, z3.Select(r, el.t)), patterns=[el.t] if not z3.is_const(el.t) or True else None))
+      self.assume(qforall([k], z3.Implies(cond, z3.Select(r, el.t)), patterns=[el.t] if not z3.is_const(el.t) or True else None))
       body = z3.substitute(z3.And(cond, el.t == x), (k, wit(x)))
-      self.assume(z3.ForAll([x], z3.Implies(z3.Select(r, x), body), patterns=[z3.Select(r, x)]))
+      self.assume(qforall([x], z3.Implies(z3.Select(r, x), body), patterns=[z3.Select(r, x)]))
       res = SV(hint, r)
     elif kind in ('any', 'all'):
       el = self.truthy(self.eval(n.elt, e))
       cond = z3.And(inr, *conds)
-      res = SV(BOOL, z3.Exists([k], z3.And(cond, el)) if kind == 'any' else z3.ForAll([k], z3.Implies(cond, el)))
+      res = SV(BOOL, z3.Exists([k], z3.And(cond, el)) if kind == 'any' else qforall([k], z3.Implies(cond, el)))
     elif kind == 'dict':
       hint = self.type_hint(n)
       if hint is None:
@@ -330,12 +347,12 @@ def comprehension(self, n, env, kind):
       wit = z3.Function(fresh_name('wit'), hint.key.z3(), z3.IntSort())
       cond = z3.And(inr, *conds)
       # every produced key is present; every present key was produced by its (last) witness index
-      self.assume(z3.ForAll([k], z3.Implies(cond, hint.has(r, kk.t)), patterns=[kk.t]))
+      self.assume(qforall([k], z3.Implies(cond, hint.has(r, kk.t)), patterns=[kk.t]))
       body = z3.substitute(z3.And(cond, kk.t == x, hint.get(r, x) == vv.t), (k, wit(x)))
-      self.assume(z3.ForAll([x], z3.Implies(hint.has(r, x), body), patterns=[hint.has(r, x)]))
+      self.assume(qforall([x], z3.Implies(hint.has(r, x), body), patterns=[hint.has(r, x)]))
       # later duplicates win: the witness is the last index producing the key
       j = z3.Int(fresh_name('cj'))
-      self.assume(z3.ForAll([k], z3.Implies(cond, k <= wit(kk.t)), patterns=[kk.t]))
+      self.assume(qforall([k], z3.Implies(cond, k <= wit(kk.t)), patterns=[kk.t]))
       for f in hint.keys_wf(r):
         self.assume(f)
       res = SV(hint, r)
@@ -361,7 +378,15 @@ def s_Try(self, st, env):
         tags = list(tv) if isinstance(tv, PyTuple) else [tv]
       if tags is None or any(exc_matches(r.exc.tag, t) for t in tags):
         if h.name:
-          env.set(h.name, r.exc)
+          hint = (getattr(self.spec, 'locals', None) or {}).get(h.name)
+          if hint is not None:
+            # the caught exception as a value of the declared sort
+            ev = r.exc.args[0] if (r.exc.args and isinstance(r.exc.args[0], SV) and r.exc.args[0].sort.name == hint.name) else self.fresh(hint, h.name)
+            if getattr(hint, 'nullable', False):
+              self.assume(ev.t != hint.literal(None))
+            env.set(h.name, ev)
+          else:
+            env.set(h.name, r.exc)
         saved = getattr(self, '_current_exc', None)
         self._current_exc = r.exc
         try:
@@ -430,4 +455,3 @@ Exec.eval_spec = eval_spec
 Exec.eval_spec_value = eval_spec_value
 Exec.as_iter = as_iter
 Exec.number_loops = number_loops
-Exec.havoc_heap = lambda self, body: None
